@@ -245,7 +245,10 @@ def _make_pre(obs, inv, clock, crash_at, trace_file):
         def tr(frame, event, arg):  # pylint: disable=unused-argument
             fn = frame.f_code.co_filename
             if "/conductor/" not in fn:
-                return None
+                # `cond clean` is one call of shutil.rmtree: its removals are the instants of interest
+                if not (os.environ.get("VTRACE_SHUTIL") and fn.endswith("/shutil.py")):
+                    return None
+                return local
             # the SIGCHLD helper runs asynchronously / loops on timing: not counted (it holds no persistent state)
             if fn.endswith("sigchld.py"):
                 return None
@@ -311,12 +314,13 @@ def wait_pids(pids, timeout=30.0):
     return True
 
 
-def invoke(project, argv, inv, beh=None, clock=None, crash_at=None, trace_file=None, cwd=None, timeout=60):
+def invoke(project, argv, inv, beh=None, clock=None, crash_at=None, trace_file=None, cwd=None, timeout=60, extra_env=None):
     """one `cond <argv>`; returns (Result, clock readings consumed, pids spawned).  Waits for the
     task processes the invocation left behind."""
     env = {"VINV": str(inv), "VOBS": project.obs}
     for name, b in (beh or {}).items():
         env["VBEH_" + name] = b
+    env.update(extra_env or {})
     pre = _make_pre(project.obs, inv, clock, crash_at, trace_file)
     t0 = time.time()
     res = implrun.run_cond(argv, cwd or project.root, env=env, pre=pre, timeout=timeout)
@@ -543,6 +547,8 @@ def coq_command(cmd):
         return "KGc"
     if k == "archive":
         return "KArchive"
+    if k == "clean":
+        return "KClean"
     raise ValueError(k)
 
 
